@@ -205,9 +205,15 @@ func (g *genState) op() {
 	default:
 		switch {
 		case del && g.phase < 3 && x < 96:
-			g.del("d")
+			if g.phase != 0 && g.r.Chance(0.6) {
+				g.read() // most in-window deletes are replaced: F1 would end the case early
+			} else {
+				g.del("d")
+			}
 		case crash && x >= 96:
 			g.crashOp()
+		case g.prop == "c03" && x >= 97:
+			g.restartOp()
 		default:
 			g.read()
 		}
@@ -245,6 +251,29 @@ func (g *genState) crashOp() {
 		} else {
 			g.emit("crash clean")
 		}
+	}
+	g.phase = 0
+	g.hot = g.wrote
+	g.readAll()
+}
+
+// restartOp (C03): restarts that tear nothing — a crash image at an op boundary (also inside a
+// stepped snapshot), a clean Close/Open, an image from inside a compaction's FileStore.replace.
+func (g *genState) restartOp() {
+	r := g.r
+	switch x := r.Intn(4); {
+	case x < 2:
+		g.emit("crash clean")
+	case x < 3:
+		if g.phase == 0 {
+			g.emit("reopen")
+		} else {
+			g.emit("crash clean")
+		}
+	default:
+		i, j, _ := g.group()
+		pt := h.Pick(r, []string{"compact.afterWriteFiles", "replace.afterRename", "replace.afterRemoveOld"})
+		g.emit(fmt.Sprintf("ccrash %s %d %d %s %d", h.Pick(r, kinds), i, j, pt, 1+r.Intn(3)))
 	}
 	g.phase = 0
 	g.hot = g.wrote
